@@ -224,11 +224,12 @@ ROUND4 = {
 
 # ... and the fifth round (DESIGN.md section 19)
 HUNT = {
- "C01": " After round 5: an hourly model fitted on a float32 frame.",
+ "C01": " After round 5: an hourly model fitted on a float32 frame; largest / zero seed profiles; every fitted-model graph also reloads the document with its keys sorted.",
+ "C04": " After round 5: the largest accepted hourly seed as a fit realisation.",
  "C02": " After round 5: a model configured with a supplemental categorical column predicting sets with and without it; a refit attempt that fails inside the daily / billing fit.",
- "C06": " After round 5 (part M): hourly models fitted on meters exactly constant over part of the temperature range (heating-only at 0 when warm, cooling-only, two-decimal resolution, constant pilot), fitted and reloaded, predicting their baseline, a summer and a winter window.",
+ "C06": " After round 5 (part M): hourly models fitted on meters exactly constant over part of the temperature range (heating-only at 0 when warm, cooling-only, two-decimal resolution, constant pilot), fitted and reloaded, predicting their baseline, a summer and a winter window; part D: daily windows of two and three rows with the transition day at every position through both entry points.",
  "C09": " After round 5: one-day and two-day data objects through every entry point; frames whose weather rows start 6 / 30 hours before the first meter day.",
- "C10": " After round 5: frames carrying an unrelated column with missing values.",
+ "C10": " After round 5: frames carrying an unrelated column with missing values; hourly day totals decided exactly (truncation band closed), DST margin 1/8 day, the clock-change day among 35-37 missing days.",
  "C14": " After round 5 (space sharing): nested hourly settings blocks shared between settings objects, re-validation of a finished object - the seed an object works with stays its own.",
 }
 
@@ -269,7 +270,7 @@ def main():
                 "replay_cmd_template": f"cd /verif && {PY} -m mc.run {pid} --replay {{path}}",
                 "engine": "mc",
                 "level_claimed": {"category": cat, "text": text + ROUND4.get(pid, "") + ROUND5.get(pid, "") + HUNT.get(pid, ""),
-                                  "design_ref": ref + ("; section 18" if pid in ROUND4 else "") + ("; section 19" if pid in ROUND5 else "") + ("; section 20" if pid in HUNT else "")},
+                                  "design_ref": ref + ("; section 18" if pid in ROUND4 else "") + ("; section 19" if pid in ROUND5 else "") + ("; sections 20-21" if pid in HUNT else "")},
                 "level_note": note,
                 "technique": tech,
             })
